@@ -57,7 +57,10 @@ type TimedEvent struct {
 	FromStranger  int    `json:"from_stranger"` // payloads of the stranger that a handed up
 	StrangerSent  int    `json:"stranger_sent"` // Sends of a / the stranger that returned nil in the stranger phase
 	StrangerSentA int    `json:"stranger_sent_a"`
-	RkChanged     bool   `json:"rk_changed"` // a.RemoteKey() is no longer b's key
+	RkChanged     bool   `json:"rk_changed"`    // a.RemoteKey() is no longer b's key
+	PendingSends  int    `json:"pending_sends"` // Sends entered during the outage (after every session had expired)
+	PendingFail   int    `json:"pending_fail"`  // ... that had not returned nil 1.5 s after the network healed
+	PendingMs     int    `json:"pending_ms"`    // slowest completion after the heal
 	ResumeSends   int    `json:"resume_sends"`
 	ResumeFail    int    `json:"resume_fail"`
 	Panic         bool   `json:"panic"`
@@ -186,6 +189,52 @@ func runTimed(c *TimedCase) (ev TimedEvent) {
 			mu.Lock()
 			got[string(out)]++
 			mu.Unlock()
+		}
+	}
+	if c.Post == "pending" {
+		// outage; once every session has expired a Send is entered on each sender and WAITS; the outage goes on for
+		// more than two reject intervals, then the network heals: the waiting Sends must complete, nobody calls Send again
+		mu.Lock()
+		cut["a"], cut["b"] = true, true
+		mu.Unlock()
+		time.Sleep(time.Duration(c.J+c.K+2) * tick)
+		type res struct {
+			err error
+			at  time.Time
+		}
+		out := make(chan res, len(senders))
+		for _, s := range senders {
+			payload := fmt.Sprintf("P:%s:%d:0123456789", s, c.ID)
+			mu.Lock()
+			sent[payload] = true
+			ch := chans[s]
+			mu.Unlock()
+			ev.PendingSends++
+			go func() {
+				ctx, cf := context.WithTimeout(context.Background(), time.Duration(2*c.J+2)*tick+3*time.Second)
+				defer cf()
+				err := ch.Send(ctx, p2p.IOVec{[]byte(payload)})
+				out <- res{err, time.Now()}
+			}()
+		}
+		time.Sleep(time.Duration(2*c.J+2) * tick)
+		mu.Lock()
+		cut["a"], cut["b"] = false, false
+		mu.Unlock()
+		healed := time.Now()
+		deadline := time.After(1500 * time.Millisecond)
+		for i := 0; i < ev.PendingSends; i++ {
+			select {
+			case r := <-out:
+				if r.err != nil {
+					ev.PendingFail++
+				} else if ms := int(r.at.Sub(healed) / time.Millisecond); ms > ev.PendingMs {
+					ev.PendingMs = ms
+				}
+			case <-deadline:
+				ev.PendingFail += ev.PendingSends - i
+				i = ev.PendingSends
+			}
 		}
 	}
 	if c.Post == "stranger" || c.Post == "resume" {
